@@ -123,7 +123,30 @@ func (e Engine) Pool() []Op {
 	for i := 0; i < 6; i++ {
 		add(Op{"spec_dfa", gen.GenMultiDiag(simrt.NewTape(simrt.Mix(1715, uint64(i))))})
 	}
+	for _, o := range collisionOps() {
+		add(o)
+	}
 	return pool
+}
+
+// collisionOps are specifications that share something a cache could be keyed by - the text of a
+// definition (as a string in one, as a pattern in the other), a token name with different values,
+// values of equal length or with a common prefix - while meaning different things.
+func collisionOps() []Op {
+	var out []Op
+	for _, v := range []string{".", "a.b", "x*", "[ab]", "a|b", "((", "a+"} {
+		out = append(out,
+			Op{"spec_dfa", "grammar lit;\nID = /[a-z]+/;\nstart = ID \"" + v + "\" ID;\n"},
+			Op{"spec_dfa", "grammar pat;\nANY = /" + v + "/;\nNUM = /[0-9]+/;\nstart = NUM ANY;\n"},
+			Op{"spec_dfa", "grammar tok;\nDOT = \"" + v + "\";\nstart = DOT DOT;\n"})
+	}
+	out = append(out,
+		Op{"spec_dfa", "grammar n1;\nNUM = /[0-9]+/;\nstart = NUM;\n"},
+		Op{"spec_dfa", "grammar n2;\nNUM = /[0-7]+/;\nstart = NUM;\n"},
+		Op{"spec_dfa", "grammar n3;\nNUM = \"0\";\nstart = NUM;\n"},
+		Op{"spec_lalr", "grammar n1;\nNUM = /[0-9]+/;\nstart = NUM;\n"},
+		Op{"spec_lalr", "grammar n1;\nNUM = /[0-9]+/;\nstart = NUM NUM;\n"})
+	return out
 }
 
 // hotOps is a short list of representative operations per family; every element is in the pool.
@@ -134,6 +157,9 @@ func (e Engine) hotOps(family int) []Op {
 			out = append(out, Op{"nfa", p}, Op{"regex_dfa", p})
 		}
 		return out
+	}
+	if family == 2 {
+		return collisionOps()
 	}
 	pool := e.Pool()
 	n := 0
@@ -547,11 +573,13 @@ func (e Engine) Run(t *simrt.Tape, c simrt.Case, x *simrt.Ctx) *simrt.Result {
 	pool := e.Pool()
 	logBefore := e.raceLogSize()
 	// half of the cases concentrate on one family of operations (shared state is per package)
-	switch t.Draw(4) {
+	switch t.Draw(5) {
 	case 0:
 		pool = filterPool(pool, "nfa", "regex_dfa")
 	case 1:
 		pool = filterPool(pool, "spec", "spec_dfa", "spec_lalr", "ast")
+	case 2:
+		pool = collisionOps()
 	}
 
 	checkRaces := func(note string) bool {
@@ -579,7 +607,7 @@ func (e Engine) Run(t *simrt.Tape, c simrt.Case, x *simrt.Ctx) *simrt.Result {
 	}
 
 	if c.Args[0] == kPairs {
-		pool = e.hotOps(t.Draw(2))
+		pool = e.hotOps(t.Draw(3))
 	}
 	switch c.Args[0] {
 	case kHistory:
